@@ -28,6 +28,14 @@ def check(ctx, cfg):
     r4(ctx, cfg)
     r5(ctx, cfg)
     r6(ctx, cfg)
+    r7(ctx, cfg)
+
+
+def r7(ctx, cfg):
+    """premise shared with C17: the reply reaches the contract's reply function - `ContractWrapper::reply` answers what the
+    supplied `reply_fn` answers for the `Reply` it was given, for every id (C17.R13 under C03's id)"""
+    from rules import C17
+    C17.r13(ctx, cfg, R="C03.R7", only=("reply",))
 
 
 def r6(ctx, cfg):
